@@ -48,10 +48,14 @@ S1_PROPS = ('C08', 'C09', 'C10', 'C11', 'C12', 'C19')
 
 SIZES = {
     # prop: tier: dict of counts
-    'C08': {'quick': {'s1': 320, 'm': 3, 's2': 60}, 'thorough': {'s1': 9000, 'm': 8, 's2': 1500}},
+    # thorough adds the single-stall enumeration (every thread x every synchronisation operation of
+    # small sessions, frozen until all else is idle) judged by this property's own oracle
+    'C08': {'quick': {'s1': 320, 'm': 3, 's2': 60},
+            'thorough': {'s1': 9000, 'm': 8, 's2': 1500, 'sweep': 12}},
     'C10': {'quick': {'s1': 320, 'm': 3, 's2': 60, 's3': 100},
-            'thorough': {'s1': 9000, 'm': 6, 's2': 1500, 's3': 3000}},
-    'C11': {'quick': {'s1': 320, 'm': 3, 's2': 40}, 'thorough': {'s1': 9000, 'm': 6, 's2': 1000}},
+            'thorough': {'s1': 9000, 'm': 6, 's2': 1500, 's3': 3000, 'sweep': 12}},
+    'C11': {'quick': {'s1': 320, 'm': 3, 's2': 40},
+            'thorough': {'s1': 9000, 'm': 6, 's2': 1000, 'sweep': 12}},
     'C12': {'quick': {'s1': 240, 'm': 2, 's3': 160}, 'thorough': {'s1': 6000, 'm': 3, 's3': 6000}},
     'C09': {'quick': {'s1': 320, 'm': 4, 's2': 120, 'sweep': 0, 'midsweep': 0},
             'thorough': {'s1': 8000, 'm': 8, 's2': 3000, 'sweep': 48, 'midsweep': 12}},
